@@ -1,16 +1,11 @@
 module verif
 
-go 1.26.0
+go 1.26
 
 require (
 	github.com/anishathalye/porcupine v1.3.0
 	github.com/anthdm/hollywood v0.0.0
-	golang.org/x/tools v0.50.0
-)
-
-require (
-	golang.org/x/mod v0.41.0 // indirect
-	golang.org/x/sync v0.23.0 // indirect
+	storj.io/drpc v0.0.33
 )
 
 // The checks never build against this path: bin/simbuild generates a modfile
